@@ -142,7 +142,7 @@ func checkC10(c *core.Ctx) {
 		"library level: Marshal/Unmarshal round trip of every scalar type (every Degree up to 64, 28 keys, fractions with 64-bit operands, meters, dynamics, bpm, metadata maps with every pair of a 40-rune hostile alphabet) and of whole instances; non-trivial = pipeline with an altered or compound interval, a non-ASCII or YAML-significant string and a setting; distinct by text")
 	c.Assume("score model (theory + exact ticks)", "smfdec", "yaml.v3 as the harness's reader", "metadata values that chord text cannot carry ({ } = , and leading blanks) are not generated for the text pipelines")
 
-	c.Stream("pipeline", c.N(1200, 15000), func(i int, r *rand.Rand) {
+	c.Stream("pipeline", c.N(2000, 20000), func(i int, r *rand.Rand) {
 		syllable := i%3 == 0
 		maxDeg := 15
 		if syllable {
